@@ -33,7 +33,7 @@ def main():
                     print(f"{m['id']}: ENGINE ERROR {p.stderr[-300:]}"); res[m["id"]] = "error"; continue
                 r = json.load(open(out))
                 bad = [o["name"] + ":" + o["result"]["status"] for o in r["obligations"]
-                       if o["result"]["status"] not in ("proved", "ok")]
+                       if o["result"]["status"] not in ("proved", "ok", "unreachable")]
                 badf = [f["name"] + ":" + f["status"] for f in r["functions"] if f["status"] not in ("generated", "trusted")]
                 kind = "KILLED" if bad else ("UNDECIDED" if badf else "SURVIVED")
                 res[m["id"]] = kind
